@@ -10,6 +10,7 @@ import (
 	"go/constant"
 	"go/token"
 	"go/types"
+	"os"
 	"sort"
 	"strings"
 
@@ -149,6 +150,57 @@ func (p *gprover) lenOf(v ssa.Value) glin {
 		if callee := x.Call.StaticCallee(); callee != nil && qname(callee) == gostuffPath+"/snm.At" && len(x.Call.Args) == 2 {
 			return p.lenOf(x.Call.Args[1])
 		}
+		// a module helper every return of which hands back one of its slice parameters with k elements appended
+		// (push helpers): len = len(argument) + k
+		if g := x.Call.StaticCallee(); g != nil && g.Blocks != nil && p.c.inModule(g) && g.Signature.Results().Len() == 1 && len(g.Params) == len(x.Call.Args) {
+			pj, add, ok := -1, int64(0), true
+			n := 0
+			instrs(g, func(in ssa.Instruction) {
+				rt, isRt := in.(*ssa.Return)
+				if !isRt || !ok {
+					return
+				}
+				n++
+				ops := retOperands(rt)
+				if len(ops) != 1 {
+					ok = false
+					return
+				}
+				v, k := ops[0], int64(0)
+				for {
+					cl, isCall := v.(*ssa.Call)
+					if !isCall {
+						break
+					}
+					b, isB := cl.Call.Value.(*ssa.Builtin)
+					if !isB || b.Name() != "append" || len(cl.Call.Args) != 2 {
+						ok = false
+						return
+					}
+					more := (&gprover{c: p.c, fn: g}).lenOf(cl.Call.Args[1])
+					if !more.isConst() {
+						ok = false
+						return
+					}
+					k += more.c
+					v = cl.Call.Args[0]
+				}
+				j := -1
+				for i, par := range g.Params {
+					if v == ssa.Value(par) {
+						j = i
+					}
+				}
+				if j < 0 || (pj >= 0 && (pj != j || add != k)) {
+					ok = false
+					return
+				}
+				pj, add = j, k
+			})
+			if ok && n > 0 && pj >= 0 {
+				return p.lenOf(x.Call.Args[pj]).add(gk(add), 1)
+			}
+		}
 	case *ssa.UnOp:
 		if x.Op == token.MUL {
 			if f := p.forward(x); f != nil {
@@ -209,6 +261,20 @@ func (p *gprover) canonV(v ssa.Value) ssa.Value {
 			}
 			p.canon[k] = v
 			return v
+		}
+		// element k of a slice a call returned and that this function only reads (indexing, slicing, len, range):
+		// every load of it sees the same value
+		if a, ok := x.X.(*ssa.IndexAddr); ok {
+			if c, ok := gConstInt(a.Index); ok {
+				if cl, isCall := a.X.(*ssa.Call); isCall && onlyRead(cl, 0) {
+					k := fmt.Sprintf("fresh/%p/[%d]", cl, c)
+					if r, ok := p.canon[k]; ok {
+						return r
+					}
+					p.canon[k] = v
+					return v
+				}
+			}
 		}
 		var al *ssa.Alloc
 		path := ""
@@ -362,6 +428,50 @@ func (c *Ctx) sizeof(t types.Type) int64 {
 // facts known at block b from dominating branch edges (plus invariants).
 func (p *gprover) facts(b *ssa.BasicBlock) []gfact {
 	fs := p.factsDom(b)
+	// merge bounded on every way in (rotated loops, `for i := range n`): if every edge into the merge's block is the
+	// true edge of `incoming value < B` for one and the same B, then merge < B in everything that block dominates
+	for d := b; d != nil; d = d.Idom() {
+		for _, in := range d.Instrs {
+			phi, ok := in.(*ssa.Phi)
+			if !ok {
+				break
+			}
+			if bt, ok := phi.Type().Underlying().(*types.Basic); !ok || bt.Info()&types.IsInteger == 0 {
+				continue
+			}
+			var bound ssa.Value
+			all := len(phi.Edges) > 0
+			for j, e := range phi.Edges {
+				pr := d.Preds[j]
+				iff, ok := lastInstr(pr).(*ssa.If)
+				if !ok || pr.Succs[0] != d || pr.Succs[1] == d {
+					all = false
+					break
+				}
+				bo, ok := iff.Cond.(*ssa.BinOp)
+				if !ok || bo.Op != token.LSS {
+					all = false
+					break
+				}
+				same := bo.X == e
+				if !same {
+					if k1, ok1 := gConstInt(bo.X); ok1 {
+						if k2, ok2 := gConstInt(e); ok2 && k1 == k2 {
+							same = true
+						}
+					}
+				}
+				if !same || (bound != nil && bound != bo.Y) {
+					all = false
+					break
+				}
+				bound = bo.Y
+			}
+			if all && bound != nil {
+				fs = append(fs, gfact{e: p.val(bound).add(p.val(phi), -1).add(gk(1), -1)})
+			}
+		}
+	}
 	// phi edge elimination: a dominating fact `phi != k` rules out the incoming edges on which the phi is the
 	// constant k; when a single edge remains, control came along it, and what held at its source block still
 	// holds (for values not redefined by the phi's own block).
@@ -880,6 +990,35 @@ func (p *gprover) proveD(goal glin, fs []gfact, depth int) (bool, string) {
 			}
 		}
 	}
+	if os.Getenv("BIOCHECK_GRD_DEBUG") != "" && depth == 0 {
+		fmt.Fprintln(os.Stderr, "GRD goal:", p.str(goal))
+		for _, f := range ins {
+			fmt.Fprintln(os.Stderr, "   fact:", p.str(f))
+		}
+	}
+	// quotient rule: a fact q + rest >= 0 with q = X / k (k > 0 constant, X >= 0) gives X + k*rest >= 0, because
+	// k*q <= X — e.g. `c < len(src)/3` gives 3c + 3 <= len(src)
+	for _, f := range append([]glin{}, ins...) {
+		for sym, coef := range f.t {
+			if coef != 1 || sym.isLen {
+				continue
+			}
+			b, ok := sym.v.(*ssa.BinOp)
+			if !ok || b.Op != token.QUO {
+				continue
+			}
+			k, ok := gConstInt(b.Y)
+			if !ok || k <= 0 || k > 64 {
+				continue
+			}
+			dv := p.val(b.X)
+			if okd, _ := p.proveD(dv, fs, depth+1); !okd {
+				continue
+			}
+			rest := f.add(gs(sym), -1)
+			ins = append(ins, dv.add(rest, k))
+		}
+	}
 	// stride rule: i = 0, s, 2s, … ; len ≡ 0 (mod s) ; i < len  =>  len - i >= s
 	for sym, k := range goal.t {
 		if sym.isLen || k != -1 {
@@ -1302,6 +1441,39 @@ func settledLoad(cell *ssa.Alloc, load *ssa.UnOp) bool {
 					return false
 				}
 			}
+		default:
+			return false
+		}
+	}
+	return true
+}
+
+// onlyRead: the slice value is used only for indexing that is loaded from, slicing (recursively), len/cap and range.
+func onlyRead(v ssa.Value, depth int) bool {
+	if depth > 3 || v.Referrers() == nil {
+		return false
+	}
+	for _, ref := range *v.Referrers() {
+		switch x := ref.(type) {
+		case *ssa.DebugRef:
+		case *ssa.IndexAddr:
+			for _, r2 := range *x.Referrers() {
+				if u, ok := r2.(*ssa.UnOp); !ok || u.Op != token.MUL {
+					if _, dbg := r2.(*ssa.DebugRef); !dbg {
+						return false
+					}
+				}
+			}
+		case *ssa.Slice:
+			if !onlyRead(x, depth+1) {
+				return false
+			}
+		case *ssa.Call:
+			b, ok := x.Call.Value.(*ssa.Builtin)
+			if !ok || (b.Name() != "len" && b.Name() != "cap") {
+				return false
+			}
+		case *ssa.Range:
 		default:
 			return false
 		}
